@@ -11,11 +11,13 @@ direct oracle : on the implementation, the exception class escaping execute_scri
                     debug mode logs one line naming the function; a host function raising BareScriptRuntimeError propagates;
                 (4) evaluate_expression without an options object and with options lacking logFn/globals;
                 (5) generated structured programs run on adversarial globals.
-correspondence: the Coq evaluator against the implementation on (1) (Python's arithmetic incl. big ints is modelled in Model/Arith.v).
+correspondence: the Coq evaluator against the implementation on (1) (Python's arithmetic incl. big ints is modelled in Model/Arith.v);
+                and on the wider library of the interpreter model (harness/libcorr.py, notes/LIB.md): typed / ill-typed calls of the JSON,
+                number-text, datetime and math functions and whole programs over them, run through check_run / check_eval.
 """
 import itertools
 
-from . import core, interp, scriptgen
+from . import core, interp, libcorr, scriptgen
 
 PID = 'C05'
 OPS = ['**', '*', '/', '%', '+', '-', '<=', '<', '>=', '>', '==', '!=', '&&', '||']
@@ -178,8 +180,12 @@ def run(tier):
                 chk.corr_fail.append({'class': 'model-differs' if c == 0 else 'model-out-of-fuel', 'source': cases[i]['expr_text'],
                                       'impl': {k: impl[i].get(k) for k in ('res', 'rt', 'log')}})
 
+    # ---- correspondence THROUGH THE INTERPRETER MODEL on the wider library (harness/libcorr.py; notes/LIB.md):
+    #      typed / ill-typed calls of every function lifted into libfull, alias calls in expression mode, whole programs
+    lib_model = libcorr.run_family(chk, tier, core.rng('c05-libcorr')) if model_ok else {}
+
     chk.coverage = {
-        'evaluations': len(cases) + n_lib,
+        'evaluations': len(cases) + n_lib + lib_model.get('cases', 0),
         'distinct_nontrivial': len(nontrivial),
         'rule': 'operators: 14 binary x every ordered pair of a %d-value adversarial pool + unary minus, through evaluate_expression and (sampled) execute_script; '
                 'library: every SCRIPT_FUNCTIONS name x random argument lists (0-5 values of every type incl. huge ints, non-finite floats, cyclic containers); '
@@ -188,6 +194,13 @@ def run(tier):
         'exhaustive': True, 'exhaustive_part': f'operator x adversarial-operand matrix ({len(OPS)} x {len(vals)}^2 minus non-terminating big-int powers)',
         'distribution': dist, 'library_calls': n_lib, 'library_outcomes': lib_dist,
         'correspondence_cases': corr_n, 'model_declined': declined,
+        'library_model_correspondence': {
+            'rule': 'scripts / expressions calling the JSON, number-text, datetime, math, arrayJoin, stringLower/Upper, systemIs functions and '
+                    'stringNew/systemLog of containers and datetimes (coq/Model/LibMore.v) on typed and ill-typed arguments, plus whole programs; '
+                    'implementation (TZ=UTC) vs Model/Run.v check_run / check_eval over libfull; declined = the model answered LOracle '
+                    '(payload it does not reproduce: transcendental functions, radix != 10, non-ASCII case mapping, float texts beyond 15 digits, '
+                    'failing calls in debug mode, ...), never counted as agreement',
+            **lib_model},
         'samples': [{'source': cases[i].get('expr_text') or cases[i].get('text'), 'impl': {k: impl[i].get(k) for k in ('res', 'rt', 'host')}}
                     for i in (5, 3000, len(cases) - 1) if i < len(cases)],
     }
